@@ -25,8 +25,10 @@ import Vanguard.Lemmas.ReadReach
   (`rwWrite_safe`, `rwWriteHeader_no_panic`).  Underneath: the loops of both writers never take a
   slice out of range, never miss a sink or a decoder, never run out of fuel, and hand back a
   well-formed writer (`twLoop_safe`, `twWrite_safe`, `ewLoop_safe`, `ewWrite_safe`).
-  Partial: panic-freedom of the request readers, of `responseWriter.Close` and hence of the whole
-  `serve` is not a theorem; it is covered by the
+  The same for **`responseWriter.Close`** when the handler returns (`rwClose_no_panic`,
+  `finish_never_panics`): the whole response side of `ServeHTTP` is panic-free.
+  Partial: panic-freedom of the request readers (fuel of the body reader, envelope buffers) and hence
+  of the whole `serve` is not a theorem; it is covered by the
   correspondence, where `panic=0` is part of every compared observation, and a watchdog in the
   harness reports a call that does not return.
 -/
@@ -804,16 +806,16 @@ theorem writeDown_failed_latched (w : World) (st : St) (b : Bytes) (hopen : st.r
     · intro h; cases h
   · intro h; cases h
 
-theorem handleEndMessage_failed_latched (w : World) (tb : Tables) (st : St) (c : Bool) (d : Bytes) (hopen : st.rw.endWritten = false) :
-    (handleEndMessage w tb st c d true).1.rw.err = true := by
+theorem handleEndMessage_ends (w : World) (tb : Tables) (st : St) (c : Bool) (d : Bytes) :
+    (handleEndMessage w tb st c d true).1.rw.endWritten = true := by
   unfold handleEndMessage
   simp only
   split
   · simp only [if_true]
-    exact reportError_sets_err w st _ hopen
+    exact reportError_ends w st _
   · split
-    · exact reportError_sets_err w st _ hopen
-    · exact reportEnd_sets_err w st _ hopen
+    · exact reportError_ends w st _
+    · exact reportEnd_ends w st _
 
 /-- Well-formedness of the re-framing writer inside its loop: while an envelope is collected, what is
     there and what is missing make five bytes, and something is missing; while a message is passed on,
@@ -867,17 +869,17 @@ theorem ewEnvelopeWritten_safe (w : World) (st : St) (e : EW) (hlen : e.env.leng
       (ewEnvelopeWritten w st e).2.1.writingEnvelope = false ∧ (ewEnvelopeWritten w st e).2.1.env = [] ∧
       (ewEnvelopeWritten w st e).2.1.current ≠ .none) ∧
     ((ewEnvelopeWritten w st e).2.2.1 = true →
-      (ewEnvelopeWritten w st e).1.rw.err = true ∨ (ewEnvelopeWritten w st e).2.1.err = true) := by
+      (ewEnvelopeWritten w st e).1.rw.endWritten = true ∨ (ewEnvelopeWritten w st e).2.1.err = true) := by
   unfold ewEnvelopeWritten
   simp only
   split
   · exact ⟨reportError_no_panic w st _, fun h => (by cases h), fun _ => Or.inr rfl⟩
   · split
     · split
-      · exact ⟨reportError_no_panic w st _, fun h => (by cases h), fun _ => Or.inl (reportError_sets_err w st _ hopen)⟩
+      · exact ⟨reportError_no_panic w st _, fun h => (by cases h), fun _ => Or.inl (reportError_ends w st _)⟩
       · split
         · split
-          · exact ⟨reportError_no_panic w st _, fun h => (by cases h), fun _ => Or.inl (reportError_sets_err w st _ hopen)⟩
+          · exact ⟨reportError_no_panic w st _, fun h => (by cases h), fun _ => Or.inl (reportError_ends w st _)⟩
           · exact ⟨rfl, fun _ => ⟨rfl, rfl, by simp⟩, fun h => by cases h⟩
         · split
           · have h1 := writeDown_no_panic w st
@@ -904,7 +906,7 @@ theorem ewEnvelopeWritten_safe (w : World) (st : St) (e : EW) (hlen : e.env.leng
 theorem ewLoop_safe (w : World) (tb : Tables) : ∀ (n : Nat) (st : St) (e : EW) (data : Bytes),
     EwWf e → (st.rw.endWritten = false ∨ e.err = true) → mu e data < n →
     (ewLoop w tb n st e data).2.2.2 = false ∧
-    ((ewLoop w tb n st e data).1.rw.err = true ∨ EwWf (ewLoop w tb n st e data).2.1) := by
+    ((ewLoop w tb n st e data).1.rw.endWritten = true ∨ EwWf (ewLoop w tb n st e data).2.1) := by
   intro n
   induction n with
   | zero => intro _ _ _ _ _ h; omega
@@ -993,10 +995,10 @@ theorem ewLoop_safe (w : World) (tb : Tables) : ∀ (n : Nat) (st : St) (e : EW)
             · rw [if_pos ht]
               split
               · have hnp := fun c d => handleEndMessage_no_panic w tb s1 c d true
-                have hl := fun c d => handleEndMessage_failed_latched w tb s1 c d hs1
+                have hl := fun c d => handleEndMessage_ends w tb s1 c d
                 generalize hr3 : handleEndMessage w tb s1 _ _ true = r3
                 have hnp' : r3.2.2 = false := by rw [← hr3]; exact hnp _ _
-                have hl' : r3.1.rw.err = true := by rw [← hr3]; exact hl _ _
+                have hl' : r3.1.rw.endWritten = true := by rw [← hr3]; exact hl _ _
                 obtain ⟨s2, er, p2⟩ := r3
                 simp only at hnp' hl' ⊢
                 subst hnp'
@@ -1066,10 +1068,10 @@ theorem ewInit_safe (w : World) (st : St) (e : EW) (hok : EwOk e) :
 theorem ewWrite_safe (w : World) (tb : Tables) (st : St) (e : EW) (data : Bytes) (hok : EwOk e)
     (hopen : st.rw.endWritten = false) :
     (ewWrite w tb st e data).2.2.2 = false ∧
-    ((ewWrite w tb st e data).1.rw.err = true ∨ EwOk (ewWrite w tb st e data).2.1) := by
+    ((ewWrite w tb st e data).1.rw.endWritten = true ∨ EwOk (ewWrite w tb st e data).2.1) := by
   have hinit := ewWrite_initialized w tb st e data
   suffices h : (ewWrite w tb st e data).2.2.2 = false ∧
-      ((ewWrite w tb st e data).1.rw.err = true ∨ EwWf (ewWrite w tb st e data).2.1) by
+      ((ewWrite w tb st e data).1.rw.endWritten = true ∨ EwWf (ewWrite w tb st e data).2.1) by
     refine ⟨h.1, ?_⟩
     rcases h.2 with h2 | h2
     · exact Or.inl h2
@@ -1106,28 +1108,212 @@ theorem ewWrite_safe (w : World) (tb : Tables) (st : St) (e : EW) (data : Bytes)
       have hmu : mu e0 data < 2 * data.length + 4 := by unfold mu; split <;> omega
       exact ewLoop_safe w tb _ s0 e0 data hwf0 (Or.inl hs0) hmu
 
+/-! #### closing the body writers -/
+
+def isLB (c : Cur) : Bool := match c with | .limitBuf _ => true | _ => false
+
+theorem ewWritePiece_lb (w : World) (st : St) (e : EW) (piece : Bytes) :
+    isLB (ewWritePiece w st e piece).2.1.current = true → isLB e.current = true := by
+  unfold ewWritePiece
+  split
+  · exact id
+  · split
+    · generalize writeDown w st piece = r
+      obtain ⟨s1, f, p⟩ := r
+      exact id
+    · intro h; simp [isLB] at h
+    · rename_i b hc
+      split
+      · exact id
+      · intro _; rw [hc]; rfl
+    · exact id
+
+theorem ewEnvelopeWritten_lb (w : World) (st : St) (e : EW) :
+    isLB (ewEnvelopeWritten w st e).2.1.current = true → isLB e.current = true := by
+  unfold ewEnvelopeWritten
+  simp only
+  split
+  · exact id
+  · split
+    · split
+      · exact id
+      · split
+        · split
+          · exact id
+          · intro h; simp [isLB] at h
+        · split
+          · generalize writeDown w st _ = r
+            obtain ⟨s1, f, p⟩ := r
+            simp only
+            split
+            · exact id
+            · intro h; simp [isLB] at h
+          · rw [if_neg Bool.false_ne_true]
+            intro h; simp [isLB] at h
+    · exact id
+
+theorem ewLoop_lb (w : World) (tb : Tables) : ∀ (n : Nat) (st : St) (e : EW) (data : Bytes),
+    isLB (ewLoop w tb n st e data).2.1.current = true → isLB e.current = true := by
+  intro n
+  induction n with
+  | zero => intro st e data; simp only [ewLoop]; exact id
+  | succ m ih =>
+    intro st e data
+    unfold ewLoop
+    split
+    · exact id
+    · split
+      · have h1 := ewWritePiece_lb w st e data
+        generalize ewWritePiece w st e data = r1 at h1 ⊢
+        obtain ⟨s1, e1, f1, p1⟩ := r1
+        exact h1
+      · simp only
+        have h1 := ewWritePiece_lb w st e (data.take e.remaining.toNat)
+        generalize ewWritePiece w st e (data.take e.remaining.toNat) = r1 at h1 ⊢
+        obtain ⟨s1, e1, f1, p1⟩ := r1
+        simp only at h1 ⊢
+        split
+        · exact h1
+        · split
+          · have h2 := fun ee => ewEnvelopeWritten_lb w s1 ee
+            generalize hr2 : ewEnvelopeWritten w s1 _ = r2
+            have h2' : isLB r2.2.1.current = true → isLB e1.current = true := by rw [← hr2]; exact h2 _
+            obtain ⟨s2, e2, f2, p2⟩ := r2
+            simp only at h2' ⊢
+            split
+            · exact fun h => h1 (h2' h)
+            · exact fun h => h1 (h2' (ih _ _ _ h))
+          · split
+            · split
+              · generalize handleEndMessage w tb s1 _ _ true = r3
+                obtain ⟨s2, er, p2⟩ := r3
+                simp only
+                split
+                · exact h1
+                · split
+                  · exact h1
+                  · exact fun h => h1 (by have := ih _ _ _ h; exact this)
+              · exact h1
+            · exact fun h => h1 (by have := ih _ _ _ h; exact this)
+
+theorem ewInit_lb (w : World) (st : St) (e : EW) :
+    isLB (ewInit w st e).2.1.current = true → isLB e.current = true ∨ st.op.clientEnveloper.isSome = true := by
+  unfold ewInit
+  split
+  · exact Or.inl
+  · simp only
+    split
+    · exact Or.inl
+    · split
+      · intro h; simp [isLB] at h
+      · rename_i ce hce
+        split
+        · intro _; right; rw [hce]; rfl
+        · split
+          · exact Or.inl
+          · generalize writeDown w st _ = r
+            obtain ⟨s1, f, p⟩ := r
+            simp only
+            split
+            · exact Or.inl
+            · intro h; simp [isLB] at h
+
+theorem ewWrite_lb (w : World) (tb : Tables) (st : St) (e : EW) (data : Bytes) :
+    isLB (ewWrite w tb st e data).2.1.current = true → isLB e.current = true ∨ st.op.clientEnveloper.isSome = true := by
+  unfold ewWrite
+  have h0 := ewInit_lb w st e
+  generalize ewInit w st e = r0 at h0 ⊢
+  obtain ⟨s0, e0, p0⟩ := r0
+  simp only at h0 ⊢
+  split
+  · exact h0
+  · split
+    · exact h0
+    · split
+      · have h1 := ewWritePiece_lb w s0 e0 data
+        generalize ewWritePiece w s0 e0 data = r1 at h1 ⊢
+        obtain ⟨s1, e1, f1, p1⟩ := r1
+        exact fun h => h0 (h1 h)
+      · exact fun h => h0 (ewLoop_lb w tb _ s0 e0 data h)
+
+theorem ewClose_no_panic (w : World) (st : St) (e : EW)
+    (h : st.rw.endWritten = true ∨ (isLB e.current = true → st.op.clientEnveloper.isSome = true)) :
+    (ewClose w st e).2 = false := by
+  have hflush : (ewCloseFlush w st e).2.2 = false := by
+    unfold ewCloseFlush
+    split
+    · rename_i b hc
+      split
+      · rename_i hcond
+        split
+        · rfl
+        · split
+          · simp only
+            have h1 := fun x => writeDown_no_panic w st x
+            generalize hr : writeDown w st _ = r
+            have h1' : r.2.2 = false := by rw [← hr]; exact h1 _
+            obtain ⟨s1, f, p⟩ := r
+            simp only at h1' ⊢
+            subst h1'
+            split
+            · rfl
+            · exact writeDown_no_panic w s1 b
+          · rename_i hnone
+            exfalso
+            rcases h with he | hl
+            · simp [he] at hcond
+            · have := hl (by rw [hc]; rfl)
+              rw [hnone] at this; cases this
+      · rfl
+    · rfl
+  unfold ewClose
+  generalize ewCloseFlush w st e = r at hflush ⊢
+  obtain ⟨s1, e1, p⟩ := r
+  simp only at hflush ⊢
+  subst hflush
+  rw [if_neg Bool.false_ne_true]
+  split
+  · rfl
+  · split
+    · exact reportError_no_panic w s1 _
+    · rfl
+
+theorem twClose_no_panic (w : World) (tb : Tables) (st : St) (t : TW) : (twClose w tb st t).2 = false := by
+  unfold twClose
+  split
+  · rfl
+  · split
+    · have h := twFlushMessage_no_panic w tb st t
+      generalize twFlushMessage w tb st t = r at h ⊢
+      obtain ⟨s1, t1, er, p⟩ := r
+      simp only at h ⊢
+      subst h
+      rw [if_neg Bool.false_ne_true]
+      split
+      · exact reportError_no_panic w s1 _
+      · rfl
+    · split
+      · exact reportError_no_panic w st _
+      · rfl
+
 /-! #### `responseWriter.WriteHeader` / `Write` over whole handler scripts -/
 
 /-- The body writer installed in the response writer is ready for a `Write`. -/
 def WriterOk (st : St) : Prop :=
   match st.rw.w with
   | .unset => False
-  | .enveloping e => EwOk e
+  | .enveloping e => EwOk e ∧ (isLB e.current = true → st.op.clientEnveloper.isSome = true)
   | .transforming t => TwOk st.op t
   | _ => True
 
 /-- The invariant of a run that makes `Write` safe: the response is consistent (`Good`, C03), and once
-    `WriteHeader` ran either the response is latched in an error or a well-formed body writer is installed. -/
+    `WriteHeader` ran either the RPC has ended or a well-formed body writer is installed. -/
 structure Ready (st : St) : Prop where
   good : Good st
-  ready : st.rw.headersWritten = true → st.rw.err = true ∨ WriterOk st
+  ready : st.rw.headersWritten = true → st.rw.endWritten = true ∨ WriterOk st
 
 theorem Ready.of_ended_or {st : St} (hg : Good st) (h : st.rw.headersWritten = true → st.rw.endWritten = true ∨ WriterOk st) :
-    Ready st :=
-  ⟨hg, fun hh => by
-    rcases h hh with he | hw
-    · exact Or.inl (hg.ended he).1
-    · exact Or.inr hw⟩
+    Ready st := ⟨hg, h⟩
 
 theorem reportError_ready (w : World) (st : St) (err : Err) (h : Ready st) : Ready (reportError w st err).1 :=
   Ready.of_ended_or (reportError_ev w st err h.good).1 (fun _ => Or.inl (reportError_ends w st err))
@@ -1201,7 +1387,7 @@ theorem rwChooseWriter_writer (w : World) (st : St) (rm : RespMeta) (eb : EndBod
         · rename_i hh; split at hh <;> cases hh
         · rename_i e hh
           split at hh
-          · cases hh; exact EwOk.fresh
+          · cases hh; exact ⟨EwOk.fresh, fun h => by simp [isLB] at h⟩
           · cases hh
         · rename_i t hh
           split at hh
@@ -1283,7 +1469,7 @@ theorem rwWrite_safe (w : World) (tb : Tables) (st : St) (data : Bytes) (h : Rea
   have hgood : Good (rwWrite w tb st data).1 := (rwWrite_ev w tb st data h.good).1
   suffices hs : (rwWrite w tb st data).2.2 = false ∧
       ((rwWrite w tb st data).1.rw.headersWritten = true →
-        (rwWrite w tb st data).1.rw.err = true ∨ WriterOk (rwWrite w tb st data).1) from ⟨hs.1, hgood, hs.2⟩
+        (rwWrite w tb st data).1.rw.endWritten = true ∨ WriterOk (rwWrite w tb st data).1) from ⟨hs.1, hgood, hs.2⟩
   clear hgood
   unfold rwWrite
   have h0 : Ready (if st.rw.headersWritten = true then (st, false) else rwWriteHeader w tb st 200).1 ∧
@@ -1297,23 +1483,29 @@ theorem rwWrite_safe (w : World) (tb : Tables) (st : St) (data : Bytes) (h : Rea
   simp only
   rw [hp0, if_neg Bool.false_ne_true]
   by_cases herr : r0.1.rw.err = true
-  · rw [if_pos herr]; exact ⟨rfl, fun _ => Or.inl herr⟩
+  · rw [if_pos herr]; exact ⟨rfl, fun hh => hR.ready hh⟩
   · rw [if_neg herr]
     have herrf : r0.1.rw.err = false := by simpa using herr
     have hopen := hR.good.live_open herrf
     have hwo : WriterOk r0.1 := by
       rcases hR.ready hW with he | hw
-      · exact absurd he herr
+      · rw [hopen] at he; cases he
       · exact hw
     unfold WriterOk at hwo
     split
     · rename_i e hw
       rw [hw] at hwo
-      obtain ⟨hp, hres⟩ := ewWrite_safe w tb r0.1 e data hwo hopen
+      obtain ⟨hp, hres⟩ := ewWrite_safe w tb r0.1 e data hwo.1 hopen
       refine ⟨hp, fun _ => ?_⟩
       rcases hres with he | hok
       · exact Or.inl he
-      · right; unfold WriterOk; exact hok
+      · right; unfold WriterOk
+        refine ⟨hok, fun hl => ?_⟩
+        show (ewWrite w tb r0.1 e data).1.op.clientEnveloper.isSome = true
+        rw [(ewWrite_hw w tb r0.1 e data).op]
+        rcases ewWrite_lb w tb r0.1 e data hl with h1 | h1
+        · exact hwo.2 h1
+        · exact h1
     · rename_i t hw
       rw [hw] at hwo
       obtain ⟨hp, hok⟩ := twWrite_safe w tb r0.1 t data hwo
@@ -1325,8 +1517,7 @@ theorem rwWrite_safe (w : World) (tb : Tables) (st : St) (data : Bytes) (h : Rea
       split
       · exact ⟨rfl, fun _ => Or.inr (by unfold WriterOk; rw [hw]; trivial)⟩
       · split
-        · refine ⟨reportError_no_panic w r0.1 _, fun _ => Or.inl ?_⟩
-          exact reportError_sets_err w r0.1 _ hopen
+        · exact ⟨reportError_no_panic w r0.1 _, fun _ => Or.inl (reportError_ends w r0.1 _)⟩
         · exact ⟨rfl, fun _ => Or.inr (by unfold WriterOk; trivial)⟩
     · rename_i hw
       exact ⟨rfl, fun _ => Or.inr (by unfold WriterOk; rw [hw]; trivial)⟩
@@ -1383,5 +1574,99 @@ theorem handler_writes_never_panic (w : World) (tb : Tables) (pl : HandlePlan) (
     rw [this] at hh; cases hh
   have hr : Ready st' := runScript_ready w tb pl script total0 _ h0
   exact ⟨(rwWrite_safe w tb st' data hr).1, rwWriteHeader_no_panic w tb st' code⟩
+
+
+/-! #### `responseWriter.Close` -/
+
+theorem rwCloseWriter_no_panic (w : World) (tb : Tables) (st : St) (h : Ready st) (hW : st.rw.headersWritten = true) :
+    (rwCloseWriter w tb st).2 = false := by
+  unfold rwCloseWriter
+  split
+  · rename_i e hw
+    split
+    · rename_i he; exact ewClose_no_panic w st e (Or.inl he)
+    · rename_i hne
+      have hopen : st.rw.endWritten = false := by simpa using hne
+      have hwo : WriterOk st := by
+        rcases h.ready hW with he | hw'
+        · rw [hopen] at he; cases he
+        · exact hw'
+      unfold WriterOk at hwo; rw [hw] at hwo
+      obtain ⟨hp, _⟩ := ewWrite_safe w tb st e [] hwo.1 hopen
+      simp only
+      rw [hp, if_neg Bool.false_ne_true]
+      refine ewClose_no_panic w _ _ (Or.inr fun hl => ?_)
+      rw [(ewWrite_hw w tb st e []).op]
+      rcases ewWrite_lb w tb st e [] hl with h1 | h1
+      · exact hwo.2 h1
+      · exact h1
+  · rename_i t hw
+    split
+    · exact twClose_no_panic w tb st t
+    · rename_i hne
+      have hopen : st.rw.endWritten = false := by simpa using hne
+      have hwo : WriterOk st := by
+        rcases h.ready hW with he | hw'
+        · rw [hopen] at he; cases he
+        · exact hw'
+      unfold WriterOk at hwo; rw [hw] at hwo
+      obtain ⟨hp, _⟩ := twWrite_safe w tb st t [] hwo
+      simp only
+      rw [hp, if_neg Bool.false_ne_true]
+      exact twClose_no_panic w tb _ _
+  · split
+    · unfold errorWriterClose; exact flushHeaders_no_panic w _
+    · rfl
+  · rfl
+
+theorem rwCloseEnd_no_panic (w : World) (tb : Tables) (st : St) : (rwCloseEnd w tb st).2 = false := by
+  unfold rwCloseEnd
+  split
+  · rfl
+  · simp only
+    split
+    · exact reportEnd_no_panic w st _
+    · split
+      · exact reportError_no_panic w _ _
+      · exact reportEnd_no_panic w _ _
+
+/-- **`responseWriter.Close` never panics** in a state a handler can reach. -/
+theorem rwClose_no_panic (w : World) (tb : Tables) (st : St) (h : Ready st) : (rwClose w tb st).2 = false := by
+  unfold rwClose
+  have h0 : Ready (if st.rw.headersWritten = true then (st, false) else rwWriteHeader w tb st 200).1 ∧
+      (if st.rw.headersWritten = true then (st, false) else rwWriteHeader w tb st 200).2 = false ∧
+      (if st.rw.headersWritten = true then (st, false) else rwWriteHeader w tb st 200).1.rw.headersWritten = true := by
+    split
+    · exact ⟨h, rfl, by assumption⟩
+    · exact ⟨rwWriteHeader_ready w tb st 200 h, rwWriteHeader_no_panic w tb st 200, rwWriteHeader_written w tb st 200⟩
+  generalize (if st.rw.headersWritten = true then (st, false) else rwWriteHeader w tb st 200) = r0 at h0 ⊢
+  obtain ⟨hR, hp0, hW⟩ := h0
+  simp only
+  rw [hp0, if_neg Bool.false_ne_true, rwCloseWriter_no_panic w tb r0.1 hR hW, if_neg Bool.false_ne_true]
+  exact rwCloseEnd_no_panic w tb _
+
+/-- **The response side of `ServeHTTP` never panics**: if the handler's reads did not panic (the
+    flight's flag after the script - every `WriteHeader`/`Write` in it is panic-free by the theorems
+    above), closing the response writer when the handler returns does not panic either. -/
+theorem finish_never_panics (w : World) (tb : Tables) (pl : HandlePlan) (script : List BOp) (total0 : Nat)
+    (st : St) (skip : Bool) (rd : Reader) (hrw : st.rw = {}) (hs : st.sink = {}) :
+    let f := (runScript w tb pl script total0 { st := transcodeStartState st skip, rd := rd }).1
+    f.panic = false → (transcodeFinish w tb f).2 = false := by
+  intro f hp
+  have hg0 : Good st := by
+    have := good_init st.op st.src
+    obtain ⟨o, src, sink, rw, scratch⟩ := st
+    simp only at hrw hs
+    subst hrw hs
+    exact ⟨this.ended, this.opened, this.atMost, this.last⟩
+  have h0 : Ready (transcodeStartState st skip) := by
+    refine ⟨(transcodeStartState_ev st skip hg0).1, fun hh => ?_⟩
+    have : (transcodeStartState st skip).rw.headersWritten = false := by
+      unfold transcodeStartState; simp only; split <;> simp [hrw]
+    rw [this] at hh; cases hh
+  have hr : Ready f.st := runScript_ready w tb pl script total0 _ h0
+  unfold transcodeFinish
+  rw [hp, if_neg Bool.false_ne_true]
+  exact rwClose_no_panic w tb f.st hr
 
 end Vanguard.C11
